@@ -756,3 +756,98 @@ def run(ctx):
                          json.dumps({k: (v if not isinstance(v, tuple) else v[0]) for k, v in metrics.items()
                                      if k.startswith('float')}, default=str))
         print(json.dumps({k: v for k, v in metrics.items() if k.startswith('float')}, indent=1, default=str))
+
+    # =================================================================================================
+    # ---- stream (iii): the SOURCE-REGENERATED code (translator extension) -----------------------------
+    # Gen.clip_segment / Gen.clip_code (lean/Plotink/Gen/*.lean, regenerated from plot_utils.py on every run,
+    # the definitions the C08_gen_* theorems are about) against the real functions:
+    #   exact  - Rounding.exact on the Fraction cases (a `flt` under identity rounding is an exact rational):
+    #            accept flag and all four coordinates identical;
+    #   ieee   - Rounding.ieee on the double cases: BIT-IDENTICAL to CPython (every returned double equal as an
+    #            exact rational), failsafe returns included.  Rounding.ieee has an unbounded exponent, so the
+    #            comparison is restricted to coordinates that are 0 or of magnitude in [1e-30, 1e30]
+    #            (no overflow / gradual underflow anywhere in the computation).
+    gen_stream(ctx, impl, exact_cases, float_cases)
+
+
+GEN_FUNCTIONS = ['clip_code', 'clip_segment']
+TRUSTED = TRUSTED + ['Gen.clip_code / Gen.clip_segment are regenerated from plot_utils.py on every run and proved equal to the hand '
+                     'model in exact arithmetic (C08_gen_bridge, C08_gen_bridge_num; fuel >= 5); not verified, validated by the '
+                     'generated-code stream of this run: the translator (loops on fuel, lists, bit operators) and the Py.Val '
+                     'library, and Rounding.ieee as a description of binary64 (bit-identical results on the double cases)']
+GEN_FUEL = 5
+GEN_FMIN, GEN_FMAX = 1e-30, 1e30
+
+
+def _gv(v):
+    """a coordinate in the driver's argument syntax: ints stay ints, floats/Fractions are `f<exact value>`"""
+    if isinstance(v, int) and not isinstance(v, bool):
+        return str(v)
+    return 'f' + frac_str(F(v))
+
+
+def _gseg(s):
+    return '[' + ','.join('[' + ','.join(_gv(v) for v in p) + ']' for p in s) + ']'
+
+
+def _gshow(acc, out):
+    return '(' + ('True' if acc else 'False') + ' (' + ' '.join('(' + ' '.join(_gv(v) for v in p) + ')' for p in out) + '))'
+
+
+def gen_stream(ctx, impl, exact_cases, float_cases):
+    if not ctx.driver:
+        ctx.notes.append('generated-code stream skipped: no driver')
+        return
+    import time
+    t_start = time.time()
+    budget = ctx.n(9000)
+    jobs = []      # (kind, seg, bounds)
+    ex = exact_cases if len(exact_cases) <= budget else \
+        exact_cases[:200] + [exact_cases[i] for i in sorted(ctx.rng.sample(range(200, len(exact_cases)), budget - 200))]
+    for (s, b) in ex:
+        jobs.append(('exact', [[F(v) for v in p] for p in s], [[F(v) for v in p] for p in b]))
+    fl = float_cases if len(float_cases) <= budget else \
+        float_cases[:200] + [float_cases[i] for i in sorted(ctx.rng.sample(range(200, len(float_cases)), budget - 200))]
+    skipped = 0
+    for (s, b) in fl:
+        s = [[float(v) for v in p] for p in s]; b = [[float(v) for v in p] for p in b]
+        if not all(v == 0 or GEN_FMIN <= abs(v) <= GEN_FMAX for p in s + b for v in p):
+            skipped += 1
+            continue
+        jobs.append(('ieee', s, b))
+    lines = []
+    for kind, s, b in jobs:
+        dps = 'x15' if kind == 'exact' else '15'
+        lines.append(f'gen clip_segment {dps} {GEN_FUEL} {_gseg(s)} {_gseg(b)}')
+        # clip_code of both input endpoints (argument order of the Python function)
+        for p in s:
+            lines.append(f'gen clip_code {dps} ' + ' '.join(_gv(v) for v in (p[0], p[1], b[0][0], b[1][0], b[0][1], b[1][1])))
+    outs = ctx.driver.batch(lines)
+    n = {'exact': 0, 'ieee': 0}
+    bad = {'exact': 0, 'ieee': 0}
+    for k, (kind, s, b) in enumerate(jobs):
+        g_seg, g_c1, g_c2 = outs[3 * k: 3 * k + 3]
+        inp = {**enc_case('float' if kind == 'ieee' else 'exact', s, b), 'gen': kind}
+        res = impl.run(s, b)
+        if res[0] == 'raise':
+            want = 'RAISE'
+            agree = 'ERR' in g_seg or g_seg == 'FUELOUT' and 'infinite loop' in res[1]
+        else:
+            want = _gshow(res[1], res[2])
+            agree = (g_seg == want)
+        n[kind] += 1
+        ctx.count(('gen', kind, inp['segment'], inp['bounds']), f'gen {kind}', False)
+        if not agree:
+            bad[kind] += 1
+            ctx.disagree(f'Gen.clip_segment (Rounding.{kind}) vs plot_utils.clip_segment', inp,
+                         want if res[0] != 'raise' else show_out(res), g_seg)
+        for p, g in ((s[0], g_c1), (s[1], g_c2)):
+            try:
+                c = str(impl.orig(p[0], p[1], b[0][0], b[1][0], b[0][1], b[1][1]))
+            except Exception as exn:
+                c = 'RAISE ' + type(exn).__name__
+            if c != g and not (c.startswith('RAISE') and g == 'ERR'):
+                ctx.disagree(f'Gen.clip_code (Rounding.{kind}) vs plot_utils.clip_code', {**inp, 'point': [_gv(v) for v in p]}, c, g)
+    ctx.notes.append(f"generated-code stream: Gen.clip_segment/Gen.clip_code vs the real functions: {n['exact']} Fraction cases under "
+                     f"Rounding.exact ({bad['exact']} differ), {n['ieee']} double cases under Rounding.ieee compared bit for bit "
+                     f"({bad['ieee']} differ; {skipped} cases outside [1e-30,1e30] not compared); fuel {GEN_FUEL}; {time.time() - t_start:.1f}s")
